@@ -128,6 +128,16 @@ CHECKS['C06'] = dict(
     technique="Coq proof (invariant denotes(pr t pre c) = meaning c (apply pre t) by induction on types) + round-trip differential check with g++ std::is_same as oracle",
     ref="5/C06")
 
+CHECKS['C18'] = dict(
+    text="Proof (partial): the number formatter pdtoa is modelled completely (Grisu2: DiyFp arithmetic with explicit 64-bit wrap-around, boundaries, cached powers, DigitGen, "
+         "GrisuRound, Prettify) and proved in parts: Prettify denotes digits*10^k exactly for every digit string and exponent; each of the 87 cached powers is the nearest 64-bit value "
+         "to its power of ten; for every boundary exponent of a finite double the selected power lies in DigitGen's window and the double-precision index computation has the exact "
+         "ceiling. The round-trip theorem of Grisu2 itself is NOT proved: it is tested (text equal to the extracted model; every output read back bit-identically by a correctly "
+         "rounded parser, 3e5 doubles quick / 6e6 thorough). The parser pstrtod violates correct rounding at large (recorded finding); only its exact fragment is guarded.",
+    note=TB + "CPython float()/repr() serve as correctly rounded reference; the comma-decimal locale axis cannot be exercised (no such locale in the image; pstrtod never reads the locale).",
+    technique="Coq proof of components (Prettify exactness, kernel-checked table and index sweeps by vm_compute) + exact-text differential check of the whole formatter + round-trip exploration",
+    ref="5/C18")
+
 PENDING = {
 }
 
